@@ -1143,6 +1143,19 @@ static std::string handle(std::vector<std::string> &a)
   return "?";
 }
 
+// an in-process operation (aes, mode, hstr, hfile, hmac, b64 ...) that does not return: the alarm writes "<id> HANG" and ends the
+// driver process (the remaining lines of this shard get no answer, which the checks read as failures, too)
+static int wv_res_fd = -1;
+static char wv_cur_id[96];
+static void wv_on_alarm(int)
+{
+  char buf[128];
+  int n = snprintf(buf, sizeof buf, "%s HANG\n", wv_cur_id);
+  if (wv_res_fd >= 0 && n > 0)
+    (void)!write(wv_res_fd, buf, (size_t)n);
+  _exit(3);
+}
+
 int main(int argc, char **argv)
 {
   if (getenv("WV_SCRATCH"))
@@ -1153,6 +1166,8 @@ int main(int argc, char **argv)
   int nul = open("/dev/null", O_WRONLY);
   dup2(nul, 1);
   res = fdopen(saved, "w");
+  wv_res_fd = saved;
+  signal(SIGALRM, wv_on_alarm);
   char *line = NULL;
   size_t cap = 0;
   ssize_t n;
@@ -1196,6 +1211,9 @@ int main(int argc, char **argv)
       for (auto &o : split(a[2], ';'))
         jobs.push_back(job{split(o, ','), atoi(a[1].c_str()), "", 0});
       static int go;
+      snprintf(wv_cur_id, sizeof wv_cur_id, "%s", id.c_str());
+      fflush(res);
+      alarm(120);
       __atomic_store_n(&go, 0, __ATOMIC_SEQ_CST);
       std::vector<pthread_t> th(jobs.size());
       for (size_t i = 0; i < jobs.size(); ++i)
@@ -1220,11 +1238,16 @@ int main(int argc, char **argv)
         pthread_join(th[i], NULL);
         r += (i ? " " : "") + jobs[i].first + ":" + std::to_string(jobs[i].diff);
       }
+      alarm(0);
       fprintf(res, "%s %s\n", id.c_str(), r.c_str());
     }
     else
     {
+      snprintf(wv_cur_id, sizeof wv_cur_id, "%s", id.c_str());
+      fflush(res);
+      alarm(op_timeout_ms / 1000 > 30 ? op_timeout_ms / 1000 : 30);
       std::string r = handle(a);
+      alarm(0);
       fprintf(res, "%s %s\n", id.c_str(), r.c_str());
     }
   }
